@@ -184,7 +184,7 @@ def run_shard(shard):
 
     def judge(op, keysdesc, o0, o1, case):
         res.evals += 1
-        if o0[0] == 'ok' and any(v != 0 for v in o0[1].values()):
+        if o0[0] == 'ok' and any((v != 0).any() if hasattr(v, 'shape') else v != 0 for v in o0[1].values()):
             res.nontrivial += 1
         osn = '+'.join(sorted(optset(opt)))
         metric = 'null-metric' if any(int(x) == 0 for x in base.signature) else 'non-null-metric'
@@ -236,6 +236,32 @@ def run_shard(shard):
                 c = {'shard': dict(shard, blocks=['list', []]), 'cause': ('blades', 'raises', sorted(optset(opt)))}
                 metric = 'null-metric' if any(int(x) == 0 for x in base.signature) else 'non-null-metric'
                 res.violate(violation(f"blades:raises:{'+'.join(sorted(optset(opt)))}:{metric}", f'{name} [{on}] alg.blades.{nm} raises {type(e).__name__}: {e}', c, '', repr(e)))
+    # exact python integers beyond 64 bits (a wrapper that silently converts operands to fixed-width arrays would wrap around),
+    # and operands whose coefficients mix plain numbers with arrays
+    if not shard.get('only'):
+        import numpy as np
+        big = 10 ** 13
+        for ka in blocks[:4]:
+            for kb in blocks[:3]:
+                va = [big + 7 * i for i in range(len(ka))]
+                vb = [-big + 11 * i for i in range(len(kb))]
+                ma = [np.array([1.5, 2.5]) if i % 2 == 0 else 2 for i in range(len(ka))]
+                for op in ('gp', 'add', 'op', 'sub'):
+                    res.evals += 1
+                    o0 = outcome(lambda: getattr(nmv(base, ka, va), op)(nmv(base, kb, vb)))
+                    o1 = outcome(lambda: getattr(alg.multivector(keys=ka, values=list(va)), op)(alg.multivector(keys=kb, values=list(vb))))
+                    if o0[0] == 'ok' and o1[0] == 'ok' and any(o0[1].get(k, 0) != o1[1].get(k, 0) for k in set(o0[1]) | set(o1[1])):
+                        cs = {'shard': dict(shard, blocks=['list', [list(ka), list(kb)]]), 'cause': (op, 'bigint', sorted(optset(opt)))}
+                        metric = 'null-metric' if any(int(x) == 0 for x in base.signature) else 'non-null-metric'
+                        res.violate(violation(f"{op}:bigint:{'+'.join(sorted(optset(opt)))}:{metric}", f'{name} [{on}] {op} on {ka} x {kb} with 14-digit python integers differs from default options',
+                                              cs, show(o0[1]), show(o1[1])))
+                    elif o0[0] != o1[0]:
+                        judge(op + ':bigint', f'{ka} x {kb} (big ints)', o0, o1, {'shard': dict(shard, blocks=['list', [list(ka), list(kb)]])})
+                    res.evals += 1
+                    m0 = outcome(lambda: getattr(nmv(base, ka, list(ma)), op)(nmv(base, kb, [1.0] * len(kb))))
+                    m1 = outcome(lambda: getattr(alg.multivector(keys=ka, values=list(ma)), op)(alg.multivector(keys=kb, values=[1.0] * len(kb))))
+                    if m0[0] == 'ok' and m1[0] != 'ok':
+                        judge(op + ':mixed-array-scalar', f'{ka} x {kb} (coefficients mixing arrays and numbers)', m0, m1, {'shard': dict(shard, blocks=['list', [list(ka), list(kb)]])})
     # operands written as keyword blades in another order than the canonical one: construction (and a product) must succeed under
     # every option setting that default options accept
     if not shard.get('only'):
